@@ -50,6 +50,7 @@ type interpreter struct {
 	sched              *scheduler
 	callDepth          int
 	syncSt             *syncState
+	lastNow            value
 }
 
 type deferred struct {
@@ -305,6 +306,14 @@ func visitInstr(fr *frame, instr ssa.Instruction) continuation {
 			addr = fr.env[instr].(*value)
 		}
 		*addr = zero(mustDeref(instr.Type()))
+		if ba, ok := (*addr).(byteArray); ok && ba.n > 64 {
+			// large zeroed byte arrays get an opaque content of the right length
+			// (over-approximation of "all zero"; code reading unwritten bytes sees arbitrary values)
+			z := i.path.freshVar("zeros", SStr)
+			i.path.pc = append(i.path.pc, "(= (str.len "+z.e+") "+smtInt(ba.n)+")")
+			z.ln = ba.n
+			ba.arr.content = z
+		}
 
 	case *ssa.MakeSlice:
 		fr.env[instr] = i.makeSlice(instr.Type(), fr.get(instr.Len), fr.get(instr.Cap))
